@@ -27,47 +27,50 @@ import (
 )
 
 var interpolateTypeCastMapping = map[tree.Path]interp.Cast{
-	servicePath("configs", tree.PathMatchList, "mode"):             toInt,
-	servicePath("cpu_count"):                                       toInt64,
-	servicePath("cpu_percent"):                                     toFloat,
-	servicePath("cpu_period"):                                      toInt64,
-	servicePath("cpu_quota"):                                       toInt64,
-	servicePath("cpu_rt_period"):                                   toInt64,
-	servicePath("cpu_rt_runtime"):                                  toInt64,
-	servicePath("cpus"):                                            toFloat32,
-	servicePath("cpu_shares"):                                      toInt64,
-	servicePath("init"):                                            toBoolean,
-	servicePath("deploy", "replicas"):                              toInt,
-	servicePath("deploy", "update_config", "parallelism"):          toInt,
-	servicePath("deploy", "update_config", "max_failure_ratio"):    toFloat,
-	servicePath("deploy", "rollback_config", "parallelism"):        toInt,
-	servicePath("deploy", "rollback_config", "max_failure_ratio"):  toFloat,
-	servicePath("deploy", "restart_policy", "max_attempts"):        toInt,
-	servicePath("deploy", "placement", "max_replicas_per_node"):    toInt,
-	servicePath("healthcheck", "retries"):                          toInt,
-	servicePath("healthcheck", "disable"):                          toBoolean,
-	servicePath("oom_kill_disable"):                                toBoolean,
-	servicePath("oom_score_adj"):                                   toInt64,
-	servicePath("pids_limit"):                                      toInt64,
-	servicePath("ports", tree.PathMatchList, "target"):             toInt,
-	servicePath("privileged"):                                      toBoolean,
-	servicePath("read_only"):                                       toBoolean,
-	servicePath("scale"):                                           toInt,
-	servicePath("secrets", tree.PathMatchList, "mode"):             toInt,
-	servicePath("stdin_open"):                                      toBoolean,
-	servicePath("tty"):                                             toBoolean,
-	servicePath("ulimits", tree.PathMatchAll):                      toInt,
-	servicePath("ulimits", tree.PathMatchAll, "hard"):              toInt,
-	servicePath("ulimits", tree.PathMatchAll, "soft"):              toInt,
-	servicePath("volumes", tree.PathMatchList, "read_only"):        toBoolean,
-	servicePath("volumes", tree.PathMatchList, "volume", "nocopy"): toBoolean,
-	iPath("networks", tree.PathMatchAll, "external"):               toBoolean,
-	iPath("networks", tree.PathMatchAll, "internal"):               toBoolean,
-	iPath("networks", tree.PathMatchAll, "attachable"):             toBoolean,
-	iPath("networks", tree.PathMatchAll, "enable_ipv6"):            toBoolean,
-	iPath("volumes", tree.PathMatchAll, "external"):                toBoolean,
-	iPath("secrets", tree.PathMatchAll, "external"):                toBoolean,
-	iPath("configs", tree.PathMatchAll, "external"):                toBoolean,
+	servicePath("blkio_config", "weight"):                                      toInt,
+	servicePath("blkio_config", "weight_device", tree.PathMatchList, "weight"): toInt,
+	servicePath("configs", tree.PathMatchList, "mode"):                         toInt,
+	servicePath("cpu_count"):                                                   toInt64,
+	servicePath("cpu_percent"):                                                 toFloat,
+	servicePath("cpu_period"):                                                  toInt64,
+	servicePath("cpu_quota"):                                                   toInt64,
+	servicePath("cpu_rt_period"):                                               toInt64,
+	servicePath("cpu_rt_runtime"):                                              toInt64,
+	servicePath("cpus"):                                                        toFloat32,
+	servicePath("cpu_shares"):                                                  toInt64,
+	servicePath("init"):                                                        toBoolean,
+	servicePath("deploy", "replicas"):                                          toInt,
+	servicePath("deploy", "update_config", "parallelism"):                      toInt,
+	servicePath("deploy", "update_config", "max_failure_ratio"):                toFloat,
+	servicePath("deploy", "rollback_config", "parallelism"):                    toInt,
+	servicePath("deploy", "rollback_config", "max_failure_ratio"):              toFloat,
+	servicePath("deploy", "restart_policy", "max_attempts"):                    toInt,
+	servicePath("deploy", "placement", "max_replicas_per_node"):                toInt,
+	servicePath("healthcheck", "retries"):                                      toInt,
+	servicePath("healthcheck", "disable"):                                      toBoolean,
+	servicePath("oom_kill_disable"):                                            toBoolean,
+	servicePath("oom_score_adj"):                                               toInt64,
+	servicePath("pids_limit"):                                                  toInt64,
+	servicePath("ports", tree.PathMatchList, "target"):                         toInt,
+	servicePath("privileged"):                                                  toBoolean,
+	servicePath("read_only"):                                                   toBoolean,
+	servicePath("scale"):                                                       toInt,
+	servicePath("secrets", tree.PathMatchList, "mode"):                         toInt,
+	servicePath("stdin_open"):                                                  toBoolean,
+	servicePath("tty"):                                                         toBoolean,
+	servicePath("ulimits", tree.PathMatchAll):                                  toInt,
+	servicePath("ulimits", tree.PathMatchAll, "hard"):                          toInt,
+	servicePath("ulimits", tree.PathMatchAll, "soft"):                          toInt,
+	servicePath("volumes", tree.PathMatchList, "read_only"):                    toBoolean,
+	servicePath("volumes", tree.PathMatchList, "tmpfs", "mode"):                toInt,
+	servicePath("volumes", tree.PathMatchList, "volume", "nocopy"):             toBoolean,
+	iPath("networks", tree.PathMatchAll, "external"):                           toBoolean,
+	iPath("networks", tree.PathMatchAll, "internal"):                           toBoolean,
+	iPath("networks", tree.PathMatchAll, "attachable"):                         toBoolean,
+	iPath("networks", tree.PathMatchAll, "enable_ipv6"):                        toBoolean,
+	iPath("volumes", tree.PathMatchAll, "external"):                            toBoolean,
+	iPath("secrets", tree.PathMatchAll, "external"):                            toBoolean,
+	iPath("configs", tree.PathMatchAll, "external"):                            toBoolean,
 }
 
 func iPath(parts ...string) tree.Path {
